@@ -137,9 +137,10 @@ def const_sig(op):
 
 
 class Site:
-    __slots__ = ("fn", "kind", "body", "bb", "where", "detail")
+    __slots__ = ("fn", "kind", "body", "bb", "where", "detail", "owners")
 
     def __init__(self, fn, kind, body, bb, where, detail=None):
+        self.owners = []
         self.fn = fn
         self.kind = kind
         self.body = body
@@ -209,7 +210,75 @@ def inventory(prog, cg, roots, skip_derived=True):
         nb += 1
         nblocks += len(b.reachable())
         sites.extend(sites_in(prog, b))
+    # a private function with exactly one call site is part of its caller: its sites are inventoried under the caller's
+    # name, so that moving audited code into such a helper is not a "new" construct (the audit is an inventory by kind; what
+    # the construct computes is checked by the shape rules of the respective property)
+    owner = single_caller_owner(prog, cg)
+    for s in sites:
+        chain = []
+        cur = s.fn
+        while cur in owner and owner[cur] not in chain and len(chain) < 4:
+            cur = owner[cur]
+            chain.append(cur)
+        s.owners = chain
     return sites, reach_, nb, nblocks
+
+
+def single_caller_owner(prog, cg):
+    """{private function: its only caller} for non-exported, non-derived workspace functions called from exactly one call
+    site of one other function (normalised root names)."""
+    cache = getattr(prog, "_single_caller_owner", None)
+    if cache is not None:
+        return cache
+    root_of = {}
+    for b in prog.bodies.values():
+        root_of[b.id] = norm(prog.bodies.get(b.root, b).name)
+    count = {}
+    callers = {}
+    for b in prog.bodies.values():
+        if b.raw.get("derived"):
+            continue
+        me = root_of[b.id]
+        for bb, t in b.calls():
+            f = callee(t)
+            if f is None:
+                continue
+            for tid in cg.targets_of(f):
+                tb = prog.bodies[tid]
+                tn = root_of[tid]
+                if tn == me:
+                    continue
+                count[tn] = count.get(tn, 0) + 1
+                callers.setdefault(tn, set()).add(me)
+    # other references (function pointers, closures passed along) make the function reachable in ways not counted here
+    referenced = set()
+    for b in prog.bodies.values():
+        for bb, i, st in b.stmts():
+            if st["k"] == "assign":
+                rv = st["rv"]
+                ops = [rv.get("op")] if rv["k"] in ("use", "cast") else rv.get("ops", []) if rv["k"] == "agg" else []
+                for o in ops:
+                    c = op_const(o) if o else None
+                    if c and "fn" in c:
+                        for tid in cg.targets_of(c["fn"]):
+                            referenced.add(root_of[tid])
+        for bb, t in b.calls():
+            for a in t["args"]:
+                c = op_const(a)
+                if c and "fn" in c:
+                    for tid in cg.targets_of(c["fn"]):
+                        referenced.add(root_of[tid])
+    out = {}
+    for b in prog.bodies.values():
+        if b.id != b.root or b.kind not in ("Fn", "AssocFn") or b.raw.get("derived") or b.raw.get("pub") or b.raw.get("exported"):
+            continue
+        n = root_of[b.id]
+        if b.impl and b.impl.get("trait"):
+            continue
+        if count.get(n) == 1 and len(callers.get(n, ())) == 1 and n not in referenced:
+            out[n] = next(iter(callers[n]))
+    prog._single_caller_owner = out
+    return out
 
 
 # ---- structural discharge: unwrap dominated by an is_some / is_none test ---------------------
@@ -343,8 +412,13 @@ class AuditMatcher:
 
     def lookup(self, site):
         key = site.key
+        owner_keys = ["%s|%s" % (short(o), short(site.kind)) for o in getattr(site, "owners", [])]
+        owner_hit = [k2 for k2 in owner_keys if k2 in self.audited and self.used.get(k2, 0) < self.audited[k2][0]]
         if key in self.audited:
             k = key
+        elif owner_hit:
+            # the construct sits in a private helper with a single call site: it is the caller's audited construct
+            k = owner_hit[0]
         else:
             fn, kind = key.split("|", 1)
             cands = [a for a in self.audited if a.split("|", 1)[1] == kind and a.split("|", 1)[0] not in self.fns_now
